@@ -125,7 +125,8 @@ def mutants(chk, prop, tier, wd, tape_files):
     import fam_parser
     rng = random.Random(common.seed())
     outs = []
-    per_start = 250 if tier == "quick" else 1500
+    heavy = prop in ("C06", "C17", "C19")
+    per_start = int(os.environ.get("VERIF_MUTANT_SEEDS", "0")) or ((400 if heavy else 4000) if tier == "quick" else (4000 if heavy else 30000))
     for (tapes, n) in tape_files:
         tag = os.path.basename(tapes)[6:-7]
         if tag not in ("DDL", "QueryStatement", "QS_From", "DML", "E12") or n == 0:
